@@ -100,6 +100,9 @@ var c16Ops = []c16Op{
 	{"Incr(syntax error)", func(gp *engine.GenginePool) error {
 		return gp.UpdatePooledRulesIncremental("rule \"a\" begin x = = end")
 	}, func(s *c16Ref) bool { return false }},
+	{"Full(syntax error)", func(gp *engine.GenginePool) error {
+		return gp.UpdatePooledRules("rule \"a\" begin x = = end")
+	}, func(s *c16Ref) bool { return false }},
 }
 
 // ---- probing a pool state ----
@@ -348,7 +351,7 @@ func init() {
 		BudgetQuick: 150 * time.Second,
 		BudgetThor:  30 * time.Minute,
 		Kind:        "cases",
-		Rule: "every sequence of length <=4 on pool (1,2) and <=3 on pool (2,3) (thorough <=6 resp. <=5, time-capped) over 11 management operations {full update A (3 rules), full update B (2 rules, one shared name, other salience), incremental: new rule / existing name same salience / existing name new salience, remove existing, remove absent, clear, SetExecModel(concurrent), SetExecModel(invalid), incremental with syntax error} from pools (1,2) and (2,3) - no state merging: the pool object is cloned at every node of the sequence tree; " +
+		Rule: "every sequence of length <=4 on pool (1,2) and <=3 on pool (2,3) (thorough <=6 resp. <=5, time-capped) over 12 management operations {full update A (3 rules), full update B (2 rules, one shared name, other salience), incremental: new rule / existing name same salience / existing name new salience, remove existing, remove absent, clear, SetExecModel(concurrent), SetExecModel(invalid), incremental with syntax error, full update with syntax error} from pools (1,2) and (2,3) - no state merging: the pool object is cloned at every node of the sequence tree; " +
 			"after EVERY prefix: all queries (IsExist, GetRulesNumber, GetRuleSalience, GetRuleDesc, GetExecModel) and executions forced onto EVERY instance (max requests held inside their first rule simultaneously, under the controlled scheduler) are compared with the reference rule set / model; failed operations change nothing; no step panics",
 		Assume: []string{"pool states are cloned with gx.DeepClone (compiled rules shared: immutable)", "removing every rule (without clear) demands only that no rule runs"},
 		Run: func(c *hx.Ctx) {
